@@ -64,7 +64,7 @@ TYNAME = {"BOOLEAN": "b", "SMALLINT": "i16", "INT": "i32", "BIGINT": "i64", "STR
 
 
 def parse_ins(req):
-    m = re.match(r"\(ins (\w+) \(decls (.*?)\) \(rows (.*)\)\)$", req)
+    m = re.match(r"\(ins\w* (\w+) (?:\(src .*?\) )?\(decls (.*?)\) (?:\(cols [^)]*\) )?\(rows (.*)\)\)$", req)
     eng, decls, rows = m.group(1), m.group(2), m.group(3)
     decls = re.findall(r"\((\w+) (\w+)\)", decls)
     return eng, decls
@@ -96,7 +96,7 @@ def ins_oracle(req, impl_line):
 
 
 def run(ck):
-    n = 1500 if ck.quick() else 40000
+    n = 1500 if ck.quick() else 30000
     nsql = 400 if ck.quick() else 8000
     bad = vlib.step_lean(ck, "RlModel.Thm.C16", THEOREMS, extra_targets=["drv_c16"])
     ok, log = vlib.step_cargo(ck, ["c16"])
@@ -170,7 +170,7 @@ def run(ck):
         st["impl_vs_oracle"]["compared"] += 1
         engines_differ = False
         if eng == "mem":
-            last_mem = (q.replace("(ins mem", "(ins disk"), impl_rows)
+            last_mem = (re.sub(r"^\((ins\w*) mem", r"(\1 disk", q), impl_rows)
         elif last_mem and last_mem[0] == q:
             engines_differ = last_mem[1] != impl_rows
         if engines_differ:
